@@ -1,3 +1,134 @@
 package main
 
-func childMain(args []string) int { return 2 }
+// Child process of C20: runs one loader over a batch of input files under RLIMIT_AS, logging
+// BEGIN i before touching input i and END i <cpu_ns> <sys_growth> <outcome> afterwards, so that
+// a death is attributed to an input; a watchdog goroutine turns an input that exceeds its CPU
+// budget into a marker line and a clean exit (a loop is a verdict, not a timeout).
+
+import (
+	"bytes"
+	"fmt"
+	"os"
+	"path/filepath"
+	"runtime"
+	"strconv"
+	"sync/atomic"
+	"syscall"
+	"time"
+
+	"github.com/hyperjumptech/grule-rule-engine/ast"
+	"github.com/hyperjumptech/grule-rule-engine/builder"
+	"github.com/hyperjumptech/grule-rule-engine/pkg"
+)
+
+func cpuNow() int64 {
+	var ru syscall.Rusage
+	syscall.Getrusage(syscall.RUSAGE_SELF, &ru)
+	return ru.Utime.Nano() + ru.Stime.Nano()
+}
+
+// cpuBudgetNs is T(n): fixed affine-in-n^2 budget (see DESIGN C20), >= 10x the worst case
+// measured on the valid and mutated corpora of the unchanged tree.
+func cpuBudgetNs(n int) int64 {
+	return int64(12e9) + int64(n)*int64(n)*2000
+}
+
+// memBudget is M(n): memory obtained from the OS may grow by at most this for one input.
+func memBudget(n int) int64 {
+	return 96<<20 + int64(n)*256
+}
+
+func runLoader(loader string, data []byte) (outcome string) {
+	defer func() {
+		if p := recover(); p != nil {
+			outcome = "PANIC " + strconv.Quote(fmt.Sprint(p))
+		}
+	}()
+	switch loader {
+	case "grl":
+		lib := ast.NewKnowledgeLibrary()
+		err := builder.NewRuleBuilder(lib).BuildRuleFromResource("K", "1", pkg.NewBytesResource(data))
+		if err != nil {
+			return "error"
+		}
+		return "ok"
+	case "jsonrule":
+		res, err := pkg.NewJSONResourceFromResource(pkg.NewBytesResource(data))
+		if err != nil {
+			return "error"
+		}
+		grl, err := res.Load()
+		if err != nil {
+			return "error"
+		}
+		lib := ast.NewKnowledgeLibrary()
+		if err := builder.NewRuleBuilder(lib).BuildRuleFromResource("K", "1", pkg.NewBytesResource(grl)); err != nil {
+			return "error"
+		}
+		return "ok"
+	case "jsonfact":
+		dc := ast.NewDataContext()
+		if err := dc.AddJSON("J", data); err != nil {
+			return "error"
+		}
+		return "ok"
+	case "grb":
+		lib := ast.NewKnowledgeLibrary()
+		if _, err := lib.LoadKnowledgeBaseFromReader(bytes.NewReader(data), true); err != nil {
+			return "error"
+		}
+		return "ok"
+	}
+	return "error"
+}
+
+func childMain(args []string) int {
+	if len(args) < 4 {
+		return 2
+	}
+	loader, dir := args[0], args[1]
+	count, _ := strconv.Atoi(args[2])
+	limit, _ := strconv.ParseUint(args[3], 10, 64)
+	if limit > 0 {
+		syscall.Setrlimit(syscall.RLIMIT_AS, &syscall.Rlimit{Cur: limit, Max: limit})
+	}
+	prog, err := os.OpenFile(filepath.Join(dir, "progress"), os.O_CREATE|os.O_WRONLY|os.O_APPEND, 0o644)
+	if err != nil {
+		return 2
+	}
+	var curStart, curBudget int64
+	var curIdx int64 = -1
+	go func() {
+		for {
+			time.Sleep(20 * time.Millisecond)
+			b := atomic.LoadInt64(&curBudget)
+			if b > 0 && cpuNow()-atomic.LoadInt64(&curStart) > b {
+				fmt.Fprintf(prog, "CPUEXCEEDED %d\n", atomic.LoadInt64(&curIdx))
+				prog.Sync()
+				os.Exit(3)
+			}
+		}
+	}()
+	var ms runtime.MemStats
+	for i := 0; i < count; i++ {
+		data, err := os.ReadFile(filepath.Join(dir, fmt.Sprintf("%d.in", i)))
+		if err != nil {
+			continue
+		}
+		runtime.GC()
+		runtime.ReadMemStats(&ms)
+		sys0 := int64(ms.Sys)
+		fmt.Fprintf(prog, "BEGIN %d\n", i)
+		atomic.StoreInt64(&curIdx, int64(i))
+		c0 := cpuNow()
+		atomic.StoreInt64(&curStart, c0)
+		atomic.StoreInt64(&curBudget, cpuBudgetNs(len(data)))
+		outcome := runLoader(loader, data)
+		atomic.StoreInt64(&curBudget, 0)
+		c1 := cpuNow()
+		runtime.ReadMemStats(&ms)
+		fmt.Fprintf(prog, "END %d %d %d %s\n", i, c1-c0, int64(ms.Sys)-sys0, outcome)
+	}
+	prog.Close()
+	return 0
+}
